@@ -4,7 +4,7 @@ import casadi as ca
 import mpmath as mp
 import z3
 
-from ..harness import Harness, Claim, HarnessError
+from ..harness import Harness, Claim, HarnessError, StructureChanged
 from ..val import Val
 from .. import val as V
 from ..enc import Ctx
@@ -65,7 +65,7 @@ class ExpStub(Harness):
             with MatrixCut() as mc:
                 X = alg.elem(xx).exp(G)
             if len(mc.calls) != 1 or not ca.is_equal(X.param, mc.calls[0][2], 2):
-                raise HarnessError(f"{self.gname}.exp does not end in a single from_Matrix call")
+                raise StructureChanged(f"{self.gname}.exp does not end in a single from_Matrix call")
             outs.append(mc.calls[0][1])
         return outs
 
